@@ -18,12 +18,13 @@ class JobResult:
         self.violations = []; self.inconclusive = []
         self.samples = []; self.witnesses = []
         self.touched = {}; self.cov = set(); self.solver_s = 0.0; self.wall_s = 0.0; self.smt2 = []
-        self.partition_ok = None; self.notes = []
+        self.partition_ok = None; self.notes = []; self.cuts = []
     def merge_engine(self, e):
         self.steps += e.stats['steps']; self.queries += e.stats['queries']; self.calls += e.stats['calls']
         for n, f in e.touched.items():
             if n not in self.touched: self.touched[n] = (f.file, f.line, e.ix.body_hash(f))
         self.cov |= e.cov
+        self.notes.extend(sorted(getattr(e, 'notes', ())))
     def slim(self):
         return self
 
@@ -66,7 +67,7 @@ def zor(cs):
 
 def explore_job(ix, name, run, obligations, overrides=None, pre=None, panics_are_violations=True, witness=None,
                 sample=None, max_paths=10**9, deadline=None, keep_smt2=False, partition=True, timeout_ms=60000, expected_paths=None,
-                engine_hook=None):
+                engine_hook=None, keep_results=False, split=None):
     """Run `run(e)` on every feasible path.  For each completed path call
          obligations(kind, out, pc, e) -> iterable of (label, formula)   # formula must be VALID under pc
        and decide each with z3 (pc ∧ ¬formula must be unsat).
@@ -81,8 +82,11 @@ def explore_job(ix, name, run, obligations, overrides=None, pre=None, panics_are
             p = pre(e_) if callable(pre) else pre
             pre_list[:] = [p]; e_.assume(p); e_.pc.pop()          # keep the precondition out of pc bookkeeping (added back below)
         return run(e_)
+    prefix = None; split_depth = None
+    if split and split[0] == 'enumerate': split_depth = split[1]
+    elif split and split[0] == 'prefix': prefix = split[1]
     try:
-        results = e.explore(run2, max_paths=max_paths, deadline=deadline)
+        results = e.explore(run2, max_paths=max_paths, deadline=deadline, prefix=prefix, split_depth=split_depth)
     except EngineError as ex:
         res.inconclusive.append(f'engine error: {ex} | stack: ' + ' > '.join(getattr(ex, 'stack', [])[-5:])); res.merge_engine(e); res.wall_s = time.time() - t0; return res
     except AnchorError as ex:
@@ -140,7 +144,8 @@ def explore_job(ix, name, run, obligations, overrides=None, pre=None, panics_are
     # partition check: the explored path conditions cover the whole precondition
     if partition and not e.truncated and results is not None:
         s = z3.Solver(); s.set('timeout', timeout_ms); s.add(prec)
-        allpcs = [zand(pc) for _, _, pc in e.all_pcs]
+        allpcs = [zand(pc) for _, _, pc in e.all_pcs] + [zand(pc) for pc in e.cut_pcs]
+        if prefix is not None and e.prefix_pc is not None: s.add(*e.prefix_pc)        # this sub-job is responsible for its prefix region only
         s.add(z3.Not(zor(allpcs)) if allpcs else z3.BoolVal(True))
         r = s.check(); res.obligations += 1
         if r == z3.unsat: res.discharged += 1; res.partition_ok = True
@@ -149,6 +154,8 @@ def explore_job(ix, name, run, obligations, overrides=None, pre=None, panics_are
     if expected_paths is not None and res.paths != expected_paths and not e.truncated:
         res.inconclusive.append(f'path count {res.paths} != expected {expected_paths}')
     res.solver_s = time.time() - ts; res.wall_s = time.time() - t0
+    if keep_results: res.results = results
+    res.cuts = list(e.cuts)
     return res
 
 def short(x, n=300):
